@@ -80,6 +80,21 @@ static int s_run(int dec, const uint8_t *n_, size_t nn, const uint8_t *a_, size_
 	return r;
 }
 
+/* one-shot decryption in place: the ciphertext buffer is also the output buffer */
+static char verdict_one_inplace(void) {
+	uint8_t *n = dupx(iv.p, iv.n), *a = dupx(aad.p, aad.n), *t, *buf; int r = -1; char v = '0';
+	extern uint8_t *g_ct, *g_tag; extern size_t g_ctn;
+	buf = dupx(g_ct, g_ctn); t = dupx(g_tag, taglen);
+	if (scheme == SM4GCM) { SM4_KEY k; sm4_set_encrypt_key(&k, key.p); r = sm4_gcm_decrypt(&k, n, iv.n, a, aad.n, buf, g_ctn, t, taglen, buf); }
+	else if (scheme == AESGCM) { AES_KEY k; if (aes_set_encrypt_key(&k, key.p, key.n) == 1) r = aes_gcm_decrypt(&k, n, iv.n, a, aad.n, buf, g_ctn, t, taglen, buf); }
+#ifdef ENABLE_SM4_CCM
+	else if (scheme == SM4CCM) { SM4_KEY k; sm4_set_encrypt_key(&k, key.p); r = sm4_ccm_decrypt(&k, n, iv.n, aad.n ? a : NULL, aad.n, buf, g_ctn, t, taglen, buf); }
+#endif
+	if (r == 1) v = (g_ctn == pt.n && memcmp(buf, pt.p, pt.n) == 0) ? 'K' : 'P';
+	free(n); free(a); free(t); free(buf); return v;
+}
+uint8_t *g_ct, *g_tag; size_t g_ctn;
+
 static char verdict_one(const uint8_t *n, size_t nn, const uint8_t *a, size_t an, const uint8_t *c, size_t cn, const uint8_t *t, size_t tn, int want_pt) {
 	uint8_t *o; int r = dec_one(n, nn, a, an, c, cn, t, tn, &o); char v = '0';
 	if (r == 1) v = want_pt ? ((cn == pt.n && memcmp(o, pt.p, pt.n) == 0) ? 'K' : 'P') : '1';
@@ -115,6 +130,7 @@ static void handle(size_t nw, char **w) {
 	putchar(stream_style ? verdict_str(n_, nn_, a_, an_, s_, sn_, off_, want) : verdict_one(n_, nn_, a_, an_, c_, cn_, t_, tn_, want))
 	if (!strcmp(field, "ok")) {
 		V1(iv.p, iv.n, aad.p, aad.n, ct, ctn, tag, taglen, st, stn, 0, 1);
+		if (!stream_style) { g_ct = ct; g_tag = tag; g_ctn = ctn; putchar(verdict_one_inplace()); }
 		if (stream_style) {   /* further chunkings of the untouched stream: rotated pattern, then one single chunk */
 			for (i = 1; i < 4; i++) putchar(verdict_str(iv.p, iv.n, aad.p, aad.n, st, stn, i, 1));
 			npat = 1; pat[0] = stn ? stn : 1;
